@@ -21,7 +21,9 @@ Cfgs ==
     [] CfgSet = "interpgrid" -> {C(k, Lin, FALSE, None, 16, "grid") : k \in {"next", "prev", "linear"}} \cup
                             {C("step", sg, FALSE, None, 16, "grid") : sg \in {<<0, 1>>, <<1, 2>>}}
     [] CfgSet = "integ"  -> {C("avg", sg, TRUE, None, 8, "scalar") : sg \in {Lin, <<0, 1>>, <<1, 2>>, <<1, 1>>}} \cup
-                            {C("sum", sg, pt, None, 8, "scalar") : sg \in {Lin, <<0, 1>>, <<1, 2>>, <<3, 4>>}, pt \in BOOLEAN}
+                            {C("sum", sg, pt, None, 8, "scalar") : sg \in {Lin, <<0, 1>>, <<1, 2>>, <<3, 4>>}, pt \in BOOLEAN} \cup
+                            {C("sum", Lin, TRUE, None, 8, "flux"), C("sum", <<1, 2>>, TRUE, None, 8, "flux"),
+                             C("sum", Lin, FALSE, None, 8, "flux"), C("avg", Lin, TRUE, None, 8, "flux")}
     [] CfgSet = "integgrid" -> {C("avg", Lin, TRUE, None, 16, "grid"), C("sum", <<0, 1>>, TRUE, None, 16, "grid")}
     [] CfgSet = "stack"  -> {C("stack", Lin, FALSE, l, 16, "grid") : l \in {None, 16}}     \* (StackTime refuses NoGrid data with several time entries)
     [] CfgSet = "spill"  -> {C(k, sg, TRUE, l, 8, "scalar") :
